@@ -380,6 +380,8 @@ BASIC_DIM_CALLS = {
     "numpy.dot": product, "matmul": product,
     "numpy.sign": dimensionless, "int": first_arg, "len": dimensionless, "numpy.count_nonzero": dimensionless,
     "index": dimensionless, "numpy.arccos": dimensionless,
+    # element-wise bounds compare their arguments: all of one dimension (a literal floor under a length^3 is not)
+    "numpy.maximum": preserve, "numpy.minimum": preserve, "numpy.fmax": preserve, "numpy.fmin": preserve, "numpy.clip": preserve,
 }
 
 
@@ -416,6 +418,17 @@ def setnf(t):
         return frozenset(("for", T.alpha(("b", g, t[2], t[3], t[4]))) for g in inner[0]), frozenset()
     if k == "map":
         return frozenset({("gen", T.alpha(t))}), frozenset()
+    if k == "phi":
+        # `if e in S: S.remove(e)` is S without e either way
+        a, b = setnf(t[2]), setnf(t[3])
+        if a is not None and b is not None and a[0] == b[0]:
+            extra = a[1] ^ b[1]
+            c = t[1]
+            neg = c[0] == "not"
+            c_ = c[1] if neg else c
+            if len(extra) == 1 and c_[0] == "in" and c_[1] in extra and ((not neg and c_[1] in a[1]) or (neg and c_[1] in b[1])):
+                return a[0], a[1] | b[1]
+        return None
     if k == "mut" and t[1] in ("remove", "discard") and len(t[3]) == 1:
         a = setnf(t[2])
         if a is None:
